@@ -7,7 +7,7 @@ CONSTANTS
   MaxUpd = 0
   WritesPerRead = 3
   VersionRules = {"wr+1", "cur+1"}
-  WriteGuards = {FALSE, TRUE}
+  WriteGuards = {0, 1, 2}
   ReuseSlots = FALSE
   EagerFinish = TRUE
   RecordHist = FALSE
